@@ -66,6 +66,9 @@ fn serialize_object(
 ) -> Result<(), Amf0SerializationError> {
     bytes.push(markers::OBJECT_MARKER);
 
+    #[cfg(feature = "verif-hooks")]
+    let properties = ::verif_hooks::ordered(properties);
+
     for (name, value) in properties {
         // TODO: Add check that property name isn't greater than a u16
         bytes.write_u16::<BigEndian>(name.len() as u16)?;
